@@ -643,6 +643,12 @@ func (r *run) request(tok string, id uint32, oneway, plain bool) []byte {
 	return mesh.XRequest("bolt", id, tok, []byte(reqBody(tok)), tmo, extra...)
 }
 
+// caseMu serialises adding and removing listeners/clusters/routers. MOSN's ListenerAdapter / connHandler keep the
+// listener list in a plain slice without a lock: concurrent AddOrUpdateListener / DeleteListener calls (16 scenarios
+// set up and torn down in parallel) crashed the process with "slice bounds out of range" in connHandler.RemoveListeners
+// (pkg/server/handler.go:257). Runtime updates are C12's subject; here they are only plumbing.
+var caseMu sync.Mutex
+
 const (
 	idWarm  = 7001
 	idMain  = 7002
@@ -674,7 +680,9 @@ func runScenario(sc *Scenario) (res *result) {
 			u.kill()
 		}
 		if cs != nil {
+			caseMu.Lock()
 			cs.Close()
+			caseMu.Unlock()
 		}
 		for _, u := range ups {
 			u.close()
@@ -735,7 +743,9 @@ func runScenario(sc *Scenario) (res *result) {
 	}
 	var err error
 	for try := 0; ; try++ {
+		caseMu.Lock()
 		cs, err = mesh.NewCaseBound(opts)
+		caseMu.Unlock()
 		if err == nil {
 			break
 		}
@@ -919,11 +929,17 @@ func (r *run) liveness(string) string {
 		return "no-socket"
 	}
 	defer u.close()
+	caseMu.Lock()
 	cs, err := mesh.NewCaseBound(mesh.Opts{Down: r.sc.Proto, Up: r.sc.Proto, Hosts: []string{u.addr}, Timeout: 4 * time.Second})
+	caseMu.Unlock()
 	if err != nil {
 		return "no-case"
 	}
-	defer cs.Close()
+	defer func() {
+		caseMu.Lock()
+		cs.Close()
+		caseMu.Unlock()
+	}()
 	cl, err := dialClient(r.sc.Proto, cs.Addr)
 	if err != nil {
 		return "dial-failed"
